@@ -14,7 +14,9 @@
 //             arrays listed must be ones that were written, and every (step, array) read must return
 //             exactly what was written or throw.  Prefixes that end on a step boundary and the whole
 //             file must read completely.  The first `lra_cases` indices call ERst::listOfRstArrays on
-//             the prefixes instead of the named reads (sanitizer stage).
+//             the prefixes instead of the named reads (sanitizer stage).  poison=1: the stack below every
+//             library call on a cut file is pre-filled with the length word of the cut record (see
+//             poisonStack) so that a reader going on after a short read is caught whatever ran before.
 #include <opm/io/eclipse/ERst.hpp>
 #include <opm/io/eclipse/EclFile.hpp>
 #include <opm/io/eclipse/OutputStream.hpp>
